@@ -42,9 +42,9 @@ type Case struct {
 	// "wildcard" (*/*) | "params" (name; charset=utf-8, sent verbatim). Whichever key selects the media
 	// type, its schema and encoding apply.
 	DeclKey string `json:"decl_key,omitempty"`
-	Value    string `json:"value,omitempty"`
-	Rep      string `json:"rep,omitempty"`
-	NoRO     bool   `json:"exclude_readonly,omitempty"`
+	Value   string `json:"value,omitempty"`
+	Rep     string `json:"rep,omitempty"`
+	NoRO    bool   `json:"exclude_readonly,omitempty"`
 	// missing
 	Required bool   `json:"required,omitempty"`
 	Body     string `json:"body,omitempty"` // "absent" | "empty"
